@@ -28,6 +28,8 @@ def handle (ss : Session) (line : String) : Session × List String :=
     | .list [.atom "spec", .atom which] =>
         let fs := match which with
           | "C01" => specC01 ss.st
+          | "C02" => specC02 ss.st
+          | "C10" => specC10 ss.st
           | _ => []
         (ss, ("(n " ++ toString fs.length ++ ")") :: fs.map (fun f => f.print))
     | _ =>
